@@ -68,7 +68,14 @@ def h_attach(sx, cfg):
     for x in w_:
         sx.assume(x > 0)
     b_ = [a_[i] + w_[i] for i in range(nd)]
-    cand = df.Region(p1=a_, p2=b_)
+    try:
+        cand = df.Region(p1=a_, p2=b_)
+    except ValueError:
+        if sx.sym:
+            raise
+        from symx.core import PathAbort
+
+        raise PathAbort("box width absorbed by binary64 rounding")
     mine = min(e)
     atol = 1e-12  # is_aligned's absolute tolerance
     # exact lattice membership (oracle): (x - pmin)/c is an integer in range
